@@ -188,6 +188,21 @@ def experiment(seed):
                     op = random_op(nrng, nx, rng.random() < 0.5)  # possibly the other kind
                     eko[k] = op
                     expect[j] = (k, op)
+                    if rng.random() < 0.5 and len(expect) > 1:
+                        # the explicit-save idiom: load an operator, change its arrays in place, assign the same
+                        # object back to its own point - what is written is what the object holds now
+                        j3 = rng.choice([q for q in sorted(expect) if q != j])
+                        k3 = (float(expect[j3][0][0]), int(expect[j3][0][1]))
+                        held = eko[k3]
+                        if held is not None:
+                            held.operator[...] = np.where(np.isfinite(held.operator), held.operator * 0.5 + 1.0, held.operator)
+                            if held.error is not None:
+                                held.error[...] = np.where(np.isfinite(held.error), held.error + 0.25, held.error)
+                            from eko.io.items import Operator as _Op
+
+                            snapshot = _Op(held.operator.copy(), None if held.error is None else held.error.copy())
+                            eko[k3] = held
+                            expect[j3] = (expect[j3][0], snapshot)
                     k2, kind2 = make_key(rng)
                     if not any(float(k2[0]) == float(kk[0]) and int(k2[1]) == int(kk[1]) for kk, _ in expect.values()):
                         op2 = random_op(nrng, nx, rng.random() < 0.5)
